@@ -180,6 +180,10 @@ def world_family(ctx, prop):
     # (2) spec -> impl
     r = world_mc(ctx, prop, steps=3 if q else 4, view="MCView", emit_from=1, label="emit-exhaustive")
     world_s2i(ctx, prop, r["replay"], variants=2, label="every (state, call, outcome) within %d calls" % (3 if q else 4))
+    # guard-heavy histories: 2 well-typed inserts, then only &self calls and guard operations
+    n = 5 if q else 7
+    r = world_mc(ctx, prop, steps=n, view="MCView", emit_from=n, phase=2, label="emit-borrow-phase")
+    world_s2i(ctx, prop, r["replay"], variants=1, label="2 inserts + every (state, &self call, outcome) within %d calls" % (n - 2))
     if not q:
         # long behaviours chosen by TLC's simulator (it evaluates Emit on every successor of the last
         # step, so each of the 4 x 100 random walks yields a bundle of sibling behaviours)
@@ -219,3 +223,21 @@ def check_C09(ctx):
 
 
 CHECKS = {"C08": check_C08, "C09": check_C09}
+
+
+def replay(ctx, path):
+    """Re-validate a saved replay block (bin/check <ID> --replay FILE): the constants are taken from
+    the block's reset event.  (props.replay has to dispatch here for C08 / C09.)"""
+    nt, nd = 4, 3
+    with open(path) as f:
+        for line in f:
+            e = json.loads(line)
+            if e.get("ev") == "reset":
+                nt, nd = len(e.get("tymap", [0] * 4)), len(e.get("xdyn", [0] * 3))
+                break
+    res = tlc_trace(ctx, "WorldTrace", path, [TRACE_INV[ctx.prop], "InvHarness"], constants=_consts(nt, nd))
+    if not res["accepted"]:
+        raise Violation(ctx.prop, "invariant %s fails on replay (event %s)" % (res["violated"], res["l"]), path)
+
+
+REPLAY = {"C08": replay, "C09": replay}
